@@ -202,6 +202,9 @@ func getESDTNFTTokenOnSender(
 	if isNew {
 		return nil, ErrNewNFTDataOnSenderAddress
 	}
+	if nonce != 0 && esdtData.TokenMetaData == nil {
+		return nil, ErrNFTDoesNotHaveMetadata
+	}
 
 	return esdtData, nil
 }
